@@ -20,6 +20,7 @@ From V Require Import Gen.Nodes Gen.TableRows Spec.Valid.
 From V Require Import Gen.CmGen Model.Cm Spec.CmSpec.
 From V Require Import Spec.SourcePos Spec.SourcePosKnown.
 From V Require Import Spec.Doc.
+From V Require Import Gen.Consts Model.Caps.
 Extraction Language OCaml.
 Set Extraction KeepSingleton.
 
@@ -207,4 +208,8 @@ Extraction "model.ml"
   Doc.std_opts
   Doc.mkDoc
   Doc.wf_doc
+  Caps.document_lookups
+  Caps.feed_rows
+  Caps.open_header
+  Caps.row_cells
 .
